@@ -56,6 +56,7 @@ class FaultPlan:
         self.count = 0
         self.fired = 0
         self.short = None
+        self.hits = []          # (kind, path) of the operations that were made to fail
 
     def hit(self, kind, path):
         if (self.kind is not None and kind != self.kind) or not path.endswith(self.suffix):
@@ -76,6 +77,7 @@ class FaultPlan:
             return None
         if self.nth <= i <= self.nth + self.sticky:
             self.fired += 1
+            self.hits.append((kind, path))
             return self
         return None
 
